@@ -120,6 +120,7 @@ class Rec:
         self.samples: list[Any] = []
         self.inconclusive: list[str] = []
         self.sets: dict[str, set[str]] = {}
+        self.sigcounts: dict[str, int] = {}
 
     def case(self, descriptor: Any, nontrivial: bool = True, n: int = 1) -> str:
         h = descriptor if isinstance(descriptor, str) and len(descriptor) == 16 else chash(descriptor)
@@ -141,6 +142,7 @@ class Rec:
 
     def violation(self, sig: str, features: list[str] | set[str], case: Any, detail: str = "") -> None:
         self.count("violations_raw")
+        self.sigcounts[sig] = self.sigcounts.get(sig, 0) + 1   # uncapped: how often each signature was observed
         # cap per signature (so a frequent known finding cannot crowd out a rare new violation), and overall
         self._per_sig = getattr(self, "_per_sig", {})
         self._per_sig[sig] = self._per_sig.get(sig, 0) + 1
@@ -159,6 +161,7 @@ class Rec:
             "samples": self.samples,
             "inconclusive": self.inconclusive,
             "sets": {k: sorted(v) for k, v in self.sets.items()},
+            "sigcounts": self.sigcounts,
         }
 
 
